@@ -54,6 +54,19 @@ Proof.
 Qed.
 Print Assumptions C12_agrees_with_oracles.
 
+(** ... and by NUMBER: the name a table gives a number is the one the independent source gives that number (x/sys calls
+    arm64's fstatat by its kernel-internal name newfstatat: the one synonym) *)
+Definition oracle_synonyms : list (string * string) := [("fstatat", "newfstatat")]%string.
+Theorem C12_agrees_with_oracles_by_number : forall o abi otbl, In (o, abi, otbl) oracles ->
+  forall n s, In (n, s) (table_of_abi abi) -> (exists s0, In (n, s0) otbl) ->
+  exists s', In (n, s') otbl /\ (s' = s \/ In (s, s') oracle_synonyms).
+Proof.
+  assert (H: forallb (fun e => agree_num_b oracle_synonyms (table_of_abi (snd (fst e))) (snd e)) oracles = true) by (vm_compute; reflexivity).
+  rewrite forallb_forall in H. intros o abi otbl Hin. specialize (H _ Hin). cbn [fst snd] in H.
+  apply agree_num_spec. exact H.
+Qed.
+Print Assumptions C12_agrees_with_oracles_by_number.
+
 (** the oracles do overlap with the tables (non-vacuity): per oracle, the number of shared names *)
 Definition shared (t o:table) : nat := List.length (filter (fun e => match lookup_name t (snd e) with Some _ => true | None => false end) o).
 Theorem C12_oracles_overlap : Forall (fun e => (250 <= shared (table_of_abi (snd (fst e))) (snd e))%nat) oracles.
